@@ -851,6 +851,10 @@ func (st *Store) SExt(a *Term, w int) *Term {
 	if a.S.W == w {
 		return a
 	}
+	// sign-extending the low bits of a value known to fit them gives the value back
+	if a.Op == OExtract && a.Q == 0 && a.A[0].S.W == w && st.sbits(a.A[0]) <= a.S.W {
+		return a.A[0]
+	}
 	if a.S.W > w {
 		return st.Extract(a, w-1, 0)
 	}
@@ -948,6 +952,32 @@ func (st *Store) FBin(op Op, a, b *Term) *Term {
 		s = SBool
 	}
 	if a.Op != OConst || b.Op != OConst {
+		// IntFloat against a finite non-integer constant: compare with its floor
+		if op == OFLt || op == OFLe || op == OFEq {
+			if b.Op == OConst {
+				if ia, _, ok := st.fpInt(a); ok {
+					c := b.F()
+					if c != math.Trunc(c) && math.Abs(c) < 1<<52 {
+						fl := st.BVs(64, int64(math.Floor(c)))
+						if op == OFEq {
+							return st.False
+						}
+						return st.Bin(OSLe, ia, fl) // ia < c  <=>  ia <= floor(c)  (also for <=)
+					}
+				}
+			} else if a.Op == OConst {
+				if ib, _, ok := st.fpInt(b); ok {
+					c := a.F()
+					if c != math.Trunc(c) && math.Abs(c) < 1<<52 {
+						fl := st.BVs(64, int64(math.Floor(c)))
+						if op == OFEq {
+							return st.False
+						}
+						return st.Bin(OSLt, fl, ib) // c < ib  <=>  floor(c) < ib
+					}
+				}
+			}
+		}
 		if ia, ba, ok := st.fpInt(a); ok {
 			if ib, bb, ok := st.fpInt(b); ok {
 				mb := ba
@@ -994,10 +1024,12 @@ func (st *Store) FUn(op Op, a *Term) *Term {
 		return a.A[0]
 	}
 	if a.Op != OConst {
-		if _, _, ok := st.fpInt(a); ok {
+		if ia, ba, ok := st.fpInt(a); ok {
 			switch op {
 			case OFIsNaN, OFIsInf:
 				return st.False
+			case OFAbs:
+				return st.mkIntFloat(st.Ite(st.Bin(OSLt, ia, st.BV(64, 0)), st.Neg(ia), ia), ba+1)
 			}
 		}
 	}
